@@ -41,6 +41,19 @@ Fisher(kind, y) ==
     [] kind = "vcgauss" -> Diag2(RMul(y[2], y[2]), RDiv(Z(2), RMul(y[2], y[2])))
     [] kind = "vcstudent" -> Diag2(RDiv(RAdd(Dof, Z(1)), RMul(RAdd(Dof, Z(3)), RMul(y[2], y[2]))),
                                    RDiv(RMul(Z(2), Dof), RMul(RAdd(Dof, Z(3)), RMul(y[2], y[2]))))
+\* ---- the energies themselves: gradient of the negative log-likelihood (the Fisher information is the data average of its outer product) ----
+DataG == <<Z(1), Z(-2)>>   DataP == <<Z(1), Z(4)>>   DataV == R(3, 4)          \* the data the replay uses
+Sq(a) == RMul(a, a)
+\* two-parameter kinds: gradient with respect to (y_1, y_2) at y
+Score(kind, y) ==
+  CASE kind = "gaussian" -> <<RMul(Icov[1], RSub(y[1], DataG[1])), RMul(Icov[2], RSub(y[2], DataG[2]))>>
+    [] kind = "poisson"  -> <<RSub(Z(1), RDiv(DataP[1], y[1])), RSub(Z(1), RDiv(DataP[2], y[2]))>>
+    [] kind = "studentt" -> [i \in 1..2 |-> LET r == RSub(y[i], DataG[i]) IN RDiv(RMul(RMul(RAdd(Dof, Z(1)), Icov[i]), r), RAdd(Dof, RMul(Icov[i], Sq(r))))]
+    [] kind = "categorical" -> LET sm == RAdd(y[1], y[2]) IN <<RSub(RDiv(y[1], sm), Z(1)), RDiv(y[2], sm)>>        \* with respect to the logits log y; data: class 0
+    [] kind = "vcgauss" -> LET r == RSub(y[1], DataV) IN <<RMul(Sq(y[2]), r), RSub(RMul(y[2], Sq(r)), RInv(y[2]))>>
+    [] kind = "vcstudent" -> LET t == RDiv(RSub(DataV, y[1]), y[2])  den == RAdd(Dof, Sq(t)) IN
+                             <<RNeg(RDiv(RMul(RAdd(Dof, Z(1)), t), RMul(y[2], den))), RAdd(RNeg(RDiv(RMul(RAdd(Dof, Z(1)), Sq(t)), RMul(y[2], den))), RInv(y[2]))>>
+ApplyT(A, gg) == [c \in 1..2 |-> RAdd(RMul(A[1][c], gg[1]), RMul(A[2][c], gg[2]))]
 Pull(A, F) == MMul(MT(A, 2, 2), MMul(F, A, 2, 2, 2), 2, 2, 2)
 Apply(A, x) == [r \in 1..2 |-> RAdd(RMul(A[r][1], x[1]), RMul(A[r][2], x[2]))]
 \* the 6 x 6 Fisher matrix of the 2-d variable-covariance Gaussian: parameters (mu_1, mu_2, S_11, S_12, S_21, S_22)
@@ -59,17 +72,18 @@ Choose ==
   /\ inst.stage = "none"
   /\ \/ \E k \in {"gaussian", "poisson", "studentt", "categorical", "vcgauss", "vcstudent"}, x \in Pts :
           /\ inst' = [stage |-> "done", comp |-> "plain", kind |-> k, x |-> x, A |-> Id(2), B |-> Id(2), S |-> Id(2)]
-          /\ res' = [dim |-> 2, M |-> Fisher(k, x)]
+          /\ res' = [dim |-> 2, M |-> Fisher(k, x), G |-> Score(k, x)]
      \/ \E k \in {"gaussian", "poisson", "studentt", "vcgauss", "vcstudent"}, x \in Pts, A \in Models :
           /\ inst' = [stage |-> "done", comp |-> "amend", kind |-> k, x |-> x, A |-> A, B |-> Id(2), S |-> Id(2)]
-          /\ res' = [dim |-> 2, M |-> Pull(A, Fisher(k, Apply(A, x)))]
+          /\ res' = [dim |-> 2, M |-> Pull(A, Fisher(k, Apply(A, x))), G |-> ApplyT(A, Score(k, Apply(A, x)))]
      \/ \E k \in {"gaussian", "poisson", "studentt"}, x \in Pts, A \in Models, B \in Models :
           /\ A # B
           /\ inst' = [stage |-> "done", comp |-> "sum", kind |-> k, x |-> x, A |-> A, B |-> B, S |-> Id(2)]
-          /\ res' = [dim |-> 2, M |-> MAdd(Pull(A, Fisher(k, Apply(A, x))), Pull(B, Fisher(k, Apply(B, x))), 2, 2)]
+          /\ res' = [dim |-> 2, M |-> MAdd(Pull(A, Fisher(k, Apply(A, x))), Pull(B, Fisher(k, Apply(B, x))), 2, 2),
+                      G |-> LET a == ApplyT(A, Score(k, Apply(A, x)))  b == ApplyT(B, Score(k, Apply(B, x))) IN <<RAdd(a[1], b[1]), RAdd(a[2], b[2])>>]
      \/ \E k \in {"gaussian", "poisson", "studentt"}, x \in Pts, A \in Models :
           /\ inst' = [stage |-> "done", comp |-> "freeze", kind |-> k, x |-> x, A |-> A, B |-> Id(2), S |-> Id(2)]
-          /\ res' = [dim |-> 1, M |-> <<<<Pull(A, Fisher(k, Apply(A, x)))[1][1]>>>>]
+          /\ res' = [dim |-> 1, M |-> <<<<Pull(A, Fisher(k, Apply(A, x)))[1][1]>>>>, G |-> <<ApplyT(A, Score(k, Apply(A, x)))[1]>>]
      \/ \E x \in Pts :
           /\ inst' = [stage |-> "done", comp |-> "plain", kind |-> "cvcgauss", x |-> x, A |-> Id(2), B |-> Id(2), S |-> Id(2)]
           /\ res' = [dim |-> 2, M |-> Diag2(RMul(x[2], x[2]), RDiv(Z(4), RMul(x[2], x[2])))]
@@ -85,11 +99,14 @@ Spec == Init /\ [][Next]_vars
 \* ---- laws on the oracle itself -------------------------------------------------------------------------------
 Symmetric == inst.stage = "done" => \A i, j \in 1..res.dim : res.M[i][j] = res.M[j][i]
 PositiveDiagonal == inst.stage = "done" => \A i \in 1..res.dim : RLt(Z(0), res.M[i][i]) \/ res.M[i][i] = Z(0)
+\* the score of a model-composed likelihood vanishes where the model reproduces the data (Gaussian): A x = d => G = 0
+ScoreLaw == (inst.stage = "done" /\ inst.kind = "gaussian" /\ inst.comp = "plain" /\ inst.x = DataG) => res.G = <<Z(0), Z(0)>>
 \* complex instances: the metric is Hermitian
 Hermitian == (inst.stage = "done" /\ "Mim" \in DOMAIN res) => \A i, j \in 1..res.dim : res.Mim[i][j] = RNeg(res.Mim[j][i])
 RatJ(q) == [n |-> q[1], d |-> q[2]]
 MatJ(M, n) == [i \in 1..n |-> [j \in 1..n |-> RatJ(M[i][j])]]
 Emit == inst.stage = "none" \/ PrintT(ToJson([comp |-> inst.comp, kind |-> inst.kind, x |-> [i \in 1..2 |-> RatJ(inst.x[i])], A |-> MatJ(inst.A, 2), B |-> MatJ(inst.B, 2),
                                                S |-> MatJ(inst.S, 2), dim |-> res.dim, M |-> MatJ(res.M, res.dim),
-                                               Mim |-> IF "Mim" \in DOMAIN res THEN MatJ(res.Mim, res.dim) ELSE <<>>]))
+                                               Mim |-> IF "Mim" \in DOMAIN res THEN MatJ(res.Mim, res.dim) ELSE <<>>,
+                                               G |-> IF "G" \in DOMAIN res THEN [i \in 1..Len(res.G) |-> RatJ(res.G[i])] ELSE <<>>]))
 =============================================================================
